@@ -255,7 +255,7 @@ func runJumpCase(o *hx.Out, f *hx.Flags, k int, r *prng.R) {
 	if len(cont) == 0 {
 		cont[string(g.pool[0])] = []byte{0xaa}
 	}
-	idx := uint32(r.Range(2, 9))
+	idx := uint32(r.Range(2, 9)) + baseHeight(r, o)
 	h.jump(p, idx, cont, r, r.Range(0, 4))
 	sig := "jump/" + mode
 	nb := r.Range(3, 9)
